@@ -163,11 +163,9 @@ def _worker(args):
 
 def campaign(pid, seed, n_examples_per_worker, workers=16):
     """Returns (failures, coverage)."""
-    import multiprocessing as mp
-    ctx = mp.get_context("spawn")
-    with ctx.Pool(workers) as pool:
-        res = pool.map(_worker, [(seed * 7919 + k, n_examples_per_worker) for k in range(workers)])
-    errs = [r["error"] for r in res if not r["ok"]]
+    from vlib import procpool
+    res = procpool.run_all(_worker, [(seed * 7919 + k, n_examples_per_worker) for k in range(workers)], workers=workers)
+    errs = [r.get("error", "worker process ended: %r" % r) for r in res if not r["ok"]]
     if errs:
         raise bootstrap.HarnessError("state machine worker failed:\n" + errs[0])
     failures = []
